@@ -22,6 +22,10 @@ def handle (st : DState) (j : Json) : DState × Json :=
   | .str "jw" => (st, jwOp j)
   | .str "refstate" => (st, refStateOp j)
   | .str "symlists" => (st, symListsOp j)
+  | .str "vqe_machine" => (st, vqeMachineOp j)
+  | .str "trim_classify" => (st, trimClassifyOp j)
+  | .str "trim_terms" => (st, trimTermsOp j)
+  | .str "frob" => (st, frobOp j)
   | .str "grouping" => (st, groupingOp j)
   | .str "exp_pauliword" => (st, expPauliwordOp j)
   | .str "exp_qubitop" => (st, expQubitOp j)
